@@ -116,6 +116,13 @@ C17_RtcExact ==
                                    ELSE OVpn(obs.vpn["N1"]) = RtcExport("N1")
             /\ \A p \in PEs : up[p] => OVpn(obs.vpn[p]) = AllExport(p)
 
+(* RFC 4684 3 (the other half of "every VRF change triggers exactly the advertisements and withdrawals needed"):
+   the speaker's OWN route-target memberships, as the RTC neighbour holds them, are exactly the import targets
+   of the VRFs configured now - a target another VRF still imports stays, whatever the RDs of the VRFs *)
+OwnTargets == UNION {w.imp : w \in vrfs}
+C17_OwnMemberships ==
+  (hasObs /\ up["N1"] /\ Has(obs, "rtcown")) => SeqToSet(obs.rtcown) = OwnTargets
+
 (* known-finding variants: the code behaves as the mechanism with the known defects *)
 C17_RtcExact_KF ==
   hasObs => /\ up["N1"] => OVpn(obs.vpn["N1"]) = wN1
